@@ -100,7 +100,7 @@ def hdf5_int_conversion(arr, dtype):
             t = np.trunc(arr)
             t = np.where(np.isnan(t), 0, t)
             t = np.clip(t, info.min, float(info.max))
-            out = np.where(t >= float(info.max), info.max, 0).astype(dtype)
+            out = np.full(t.shape, info.max, dtype=dtype)
             small = t < float(info.max)
             out[small] = t[small].astype(dtype)
             return out
@@ -142,6 +142,11 @@ def _summary_post(ctx, dset, arr, OLD):
                     continue
             else:
                 ok = bool(got == exp) or (np.isnan(got) and np.isnan(exp))
+                if not ok and full.dtype.kind == "f" and full.dtype.itemsize < 8:
+                    # summary computed from data that are rounded to single precision on
+                    # storage: equal within the storage type's rounding
+                    with np.errstate(all="ignore"):
+                        ok = bool(full.dtype.type(got) == exp)
         finding = None
         if not ok and uname == "mean":
             finding = _d15_model(OLD, arr, got)
